@@ -263,6 +263,63 @@ def _prove_path(ex, path, ca, P, INV, N, square):
     return "ok", "OUT*W^N = A*B + M*P - D identically (%d word decompositions); each dropped word D_i is 0 (k_i = r0_i*INV mod W, INV*p0 = -1 mod W)%s" % (len(ex.decomp), note)
 
 
+def prove_reduce(facts, fn, P, INV, N, cv):
+    """into_bigint (Montgomery reduction of a single element): OUT * W^N = A + M*P - D, dropped words zero"""
+    from rules.c15 import WordEngine, _loop_models
+    wm = _loop_models(_models([]))
+    ex = WordEngine(facts, fn.unit, wm, env={"N": N}, max_paths=10, max_depth=8, inline_limit=2000, max_visits=4 * N * N + 16, const_value=cv)
+    a = SX.Obj(adt="Fp", fields={0: SX.Obj(adt="BigInt", fields={0: SX.Obj(adt="array", fields={i: Q.var("a%d" % i) for i in range(N)})})})
+    try:
+        paths = [p for p in ex.run(fn, [a]) if "panic" not in p.flags]
+    except Exception as e:
+        return "undecided", "symbolic evaluation failed: %s" % str(e)[:80]
+    if len(paths) != 1 or paths[0].flags:
+        return "undecided", "the body is not a straight-line word computation (%d paths, flags %s)" % (len(paths), sorted(paths[0].flags)[:4] if paths else [])
+    path = paths[0]
+    try:
+        arr = ex.deref(ex.deref(path.ret).fields[0])
+        limbs = [SX.q_of(ex.deref(arr.fields[i])) for i in range(N)]
+    except Exception as e:
+        return "undecided", "result limbs not found (%s)" % str(e)[:60]
+    if any(x is None for x in limbs):
+        return "undecided", "a result limb is not a word expression"
+    wraps = [e for e in path.st.events if e and e[0] == "wrap"]
+    if len(wraps) != N:
+        return "undecided", "expected N Montgomery steps, found %d" % len(wraps)
+    p0 = P % W
+    discs = []
+    for we in wraps:
+        kn = next(iter(we[2].n.vars()))
+        for (x, lo, hi) in ex.decomp:
+            if x.is_poly() and x.n.t.get(((kn, 1),)) == p0 and not any(kn in [v for v, _e in mono] for mono in x.n.t if mono != ((kn, 1),)):
+                discs.append((x, lo, hi))
+                break
+    if len(discs) != N:
+        return "undecided", "dropped low words not identified (%d of %d)" % (len(discs), N)
+    A = sum((Q.var("a%d" % i) * Q.const(W ** i) for i in range(N)), Q.const(0))
+    OUT = sum((x * Q.const(W ** k) for k, x in enumerate(limbs)), Q.const(0))
+    M = sum((e[2] * Q.const(W ** i) for i, e in enumerate(wraps)), Q.const(0))
+    D = sum((dl[1] * Q.const(W ** i) for i, dl in enumerate(discs)), Q.const(0))
+    d = OUT * Q.const(W ** N) - A - M * Q.const(P) + D
+    wrapnames = {next(iter(e[2].n.vars())) for e in wraps}
+    for (x, lo, hi) in reversed(ex.decomp):
+        ln = next(iter(lo.n.vars()))
+        if ln in wrapnames:
+            continue
+        if ln in d.vars():
+            d = d.subst(ln, (x - Q.const(ex.base_of(lo)) * hi).n)
+    if not d.is_zero():
+        return "bad", "OUT*W^N - (A + M*P - D) reduces to %s, not 0: the reduction does not compute a*R^-1 mod p" % str(d)[:140]
+    if (INV * p0 + 1) % W != 0:
+        return "bad", "INV * p0 != -1 mod 2^64"
+    for i, (we, dl) in enumerate(zip(wraps, discs)):
+        r0 = dl[0] - we[2] * Q.const(p0)
+        # r0 may include the incoming carry of the step (0): the Montgomery factor must be r0 * INV
+        if not (we[1] - r0 * Q.const(INV)).is_zero():
+            return "bad", "step %d: k is the low word of %s but the dropped word is the low word of %s" % (i, str(we[1])[:60], str(dl[0])[:60])
+    return "ok", "OUT*W^N = A + M*P - D identically (%d word decompositions); each dropped word is 0" % len(ex.decomp)
+
+
 def check_cios_default(rule, facts):
     """the trait-default bodies (generic in N, loops expanded by unroll_for_loops) are what hand-written configurations
     run: they are evaluated with each such configuration's constants (MODULUS, INV, the no-carry / spare-bit flags) and
@@ -275,6 +332,30 @@ def check_cios_default(rule, facts):
             if k.get("owner") and k.get("trait", "").endswith("MontConfig"):
                 table.setdefault((c.unit, k["owner"]), {})[k["name"]] = k.get("val")
     overriding = {(f.unit, (f.impl or {}).get("self")) for f in facts.fns() if f.name == "mul_assign" and (f.trait_impl or "").endswith("MontConfig") and not f.default_of}
+    ib = [f for f in facts.fns(unit="ws", crate="ark_ff") if f.kind != "Closure" and f.id == MONT + "::into_bigint"]
+    ib_over = {(f.unit, (f.impl or {}).get("self")) for f in facts.fns() if f.name == "into_bigint" and (f.trait_impl or "").endswith("MontConfig") and not f.default_of}
+    if ib:
+        # the conversion out of Montgomery form is the trait default for every configuration: one instance per shape
+        # (limb count, modulus) -- run with each configuration's constants
+        seen_mod = set()
+        for (unit, owner), cs in sorted(table.items()):
+            if (unit, owner) in ib_over or not isinstance(cs.get("MODULUS"), dict) or not isinstance(cs.get("INV"), int):
+                continue
+            limbs = cs["MODULUS"]["0"]
+            P_ = sum(x << (64 * i) for i, x in enumerate(limbs))
+            if (P_, len(limbs)) in seen_mod:
+                continue
+            seen_mod.add((P_, len(limbs)))
+
+            def cv2(d, k, ctx=(), cs=cs, limbs=limbs):
+                nm = d.rsplit("::", 1)[-1]
+                if nm == "MODULUS":
+                    return SX.Obj(adt="BigInt", fields={0: SX.Obj(adt="array", fields={i: x for i, x in enumerate(limbs)})})
+                v = cs.get(nm)
+                return v if isinstance(v, (bool, int)) else None
+            verdict, msg = prove_reduce(facts, ib[0], P_, cs["INV"], len(limbs), cv2)
+            key = "%s|%s|into_bigint(default)" % (unit, owner)
+            (rule.ok if verdict == "ok" else rule.bad if verdict == "bad" else rule.undecided)(key, msg, ib[0].loc)
     for (unit, owner), cs in sorted(table.items()):
         if (unit, owner) in overriding or not isinstance(cs.get("MODULUS"), dict) or not isinstance(cs.get("INV"), int):
             continue
@@ -291,6 +372,8 @@ def check_cios_default(rule, facts):
                 return v
             return None
         for name, fn in sorted(defaults.items()):
+            if name == "into_bigint":
+                continue
             if name == "square_in_place" and N == 1:
                 continue
             key = "%s|%s|%s(default)" % (unit, owner, name)
@@ -299,7 +382,7 @@ def check_cios_default(rule, facts):
 
 
 def check_cios(res, facts, units):
-    rule = res.rule("R-CIOS", "derive-generated Montgomery mul_assign / square_in_place: OUT*W^N = A*B + M*P with every dropped low word zero, for all limb contents [word-level polynomial identity per configuration]", 120)
+    rule = res.rule("R-CIOS", "derive-generated Montgomery mul_assign / square_in_place: OUT*W^N = A*B + M*P with every dropped low word zero, for all limb contents [word-level polynomial identity per configuration]", 180)
     consts = {}
     for c in facts.crates:
         for k in c.consts:
